@@ -88,8 +88,13 @@ DPDA(d) ==
       [] d = 3 -> << Q(<< <<400, 0, 0>>, <<0, 1, 0>>, <<0, 0, 25>> >>, 1), Q(<< <<1, 0, 0>>, <<0, 900, 0>>, <<0, 0, 4>> >>, 2) >>
       [] d = 4 -> << Q(<< <<400, 0, 0, 0>>, <<0, 1, 0, 0>>, <<0, 0, 9, 0>>, <<0, 0, 0, 2>> >>, 1),
                      Q(<< <<1, 0, 0, 0>>, <<0, 900, 0, 0>>, <<0, 0, 4, 0>>, <<0, 0, 0, 2>> >>, 3) >>
-SPDm(d, s) == IF s >= 10 THEN SPDA(d) ELSE SPD(d)
-DPDm(d, s) == IF s >= 10 THEN DPDA(d) ELSE DPD(d)
+\* "Micro" menus: the well-scaled matrices in very small units (all entries times 2e-9; condition numbers unchanged),
+\* selected by offsets >= 20: branches that compare against ABSOLUTE thresholds (allclose defaults, fixed jitter)
+\* are only reached at such scales.  5e8 * d stays below TLC's 32-bit integers for the menus' denominators d <= 4.
+MicroDen == 500000000
+Micro(menu) == [i \in DOMAIN menu |-> Q(menu[i].n, menu[i].d * MicroDen)]
+SPDm(d, s) == IF s >= 20 THEN Micro(SPD(d)) ELSE IF s >= 10 THEN SPDA(d) ELSE SPD(d)
+DPDm(d, s) == IF s >= 20 THEN Micro(DPD(d)) ELSE IF s >= 10 THEN DPDA(d) ELSE DPD(d)
 
 \* R components starting at (cyclic) offset s of a menu
 Pick(menu, R, s) == MkSeq(R, LAMBDA i : menu[((s + i - 1) % Len(menu)) + 1])
